@@ -5,16 +5,17 @@ META = {'claimed': True,
  'level_text': 'proof: every parser is modelled on CHECKED memory (a read or write outside the object, or past the NUL of a C string, is Fault; loops run on fuel) and proved to return Ok for EVERY '
                'input. json_find: for every byte string and key, no fault, fuel suffices at every nesting depth, result offset in [0, len] (C15_json_find_total, C15_json_skip_value_total; '
                "regression: the pre-repair code over-reads on the F1 witness); base-64 decoder/encoder stay within input and the contract's output size, outlen within it (C15_b64decode_no_fault, "
-               "C15_b64encode_no_fault); unhexify reads only its string (C17_unhexify_exact); PARSENUM_EX (all widths, bounds, bases, trailing), parsenum_float's wrapper and humansize_parse finish "
-               'Ok on every NUL-terminated string with accepted values inside bounds and type (C15_parsenum_*_safe, C15_humansize_parse_safe); sock_resolve / sock_addr_ensure_port on every string, '
-               'sock_addr_deserialize reads only buflen bytes whatever the length field says (C15_sock_*); sock_addr_prettyprint never faults on any address value of any family, name or length, nor '
-               'does decode-then-print (C15_sock_addr_prettyprint_no_fault, C15_deserialize_then_prettyprint_no_fault; regression for repaired defect F14); aws_readkeys and readpass_file for every '
-               'file content and prior stack-buffer content, fgets never given more than the buffer holds (sizes regenerated) (C15_aws_readkeys_no_fault, C15_readpass_file_no_fault); getopt: every '
-               'read of argv strings, the packed-option cursor, strncmp inside searchopt and optarg stays inside the terminated strings, loop terminates, final optind in range (C15_getopt_no_fault, '
-               'C15_switch_no_fault: aborts iff the registration pass refuses the table, never for a well-formed one; C15_searchopt_in_bounds, C15_getopt_optind_range). 22 theorems + the hex one. '
-               'Bound to the C by correspondence runs under ASan/UBSan with every input in a heap block of exactly its size (arbitrary, truncated and mutated inputs; implementation result = model '
-               'result, which is proved never to fault). KNOWN FINDING F11 (listed): json_find recurses once per nesting level without a depth limit; ~262,000 unclosed brackets exhaust an 8 MiB '
-               'stack - outside the Gallina model (no stack), probed on the compiled code and reported as KNOWN-FINDING.',
+               'C15_b64encode_no_fault); unhexify reads only its string, and on an unterminated block only its first 2*len bytes (C17_unhexify_exact, C15_unhexify_reads_only_2len in '
+               "Properties_C17_hex.v); PARSENUM_EX (all widths, bounds, bases, trailing), parsenum_float's wrapper and humansize_parse finish Ok on every NUL-terminated string with accepted values "
+               'inside bounds and type (C15_parsenum_*_safe, C15_humansize_parse_safe); sock_resolve / sock_addr_ensure_port on every string, sock_addr_deserialize reads only buflen bytes whatever '
+               'the length field says (C15_sock_*); sock_addr_prettyprint never faults on any address value of any family, name or length, nor does decode-then-print '
+               '(C15_sock_addr_prettyprint_no_fault, C15_deserialize_then_prettyprint_no_fault; regression for repaired defect F14); aws_readkeys and readpass_file for every file content and prior '
+               'stack-buffer content, fgets never given more than the buffer holds (sizes regenerated) (C15_aws_readkeys_no_fault, C15_readpass_file_no_fault); getopt: every read of argv strings, '
+               'the packed-option cursor, strncmp inside searchopt and optarg stays inside the terminated strings, loop terminates, final optind in range (C15_getopt_no_fault, C15_switch_no_fault: '
+               'aborts iff the registration pass refuses the table, never for a well-formed one; C15_searchopt_in_bounds, C15_getopt_optind_range). 22 theorems + the hex one. Bound to the C by '
+               'correspondence runs under ASan/UBSan with every input in a heap block of exactly its size (arbitrary, truncated and mutated inputs; implementation result = model result, which is '
+               'proved never to fault). KNOWN FINDING F11 (listed): json_find recurses once per nesting level without a depth limit; ~262,000 unclosed brackets exhaust an 8 MiB stack - outside the '
+               'Gallina model (no stack), probed on the compiled code and reported as KNOWN-FINDING.',
  'level_note': "Trusted: Coq kernel; hand-written models on checked memory bound by differential execution under ASan; libc pieces are oracles with only their bounds assumed (strtod's end pointer "
                'within the string, inet_pton fills 16 bytes, fgets per C99); machine stack depth is outside the model (F11). Print Assumptions: closed under the global context. Diagnostics '
                '(util/warnp.c) are outside the Gallina model; they are exercised under ASan in stderr and syslog modes with rejected addresses of 4000..4200, 8192 and 70000 bytes. Repaired defect '
